@@ -346,7 +346,9 @@ def digest(text):
 CG_FRAGS = ['[#X]', '[#X][#Y]', '[#X][#Y][#Z]', '[#X]([#Y])[#Z]', '[#X]1[#Y][#Z]1', '[#X]=[#Y]', '[#P][#Q]1[#R][#S]1',
             '[#X;q=1][#Y;w=2.5]']
 AA_FRAGS = ['C', 'CC', 'COC', 'CC(C)C', 'C=C', 'CCO', 'N', 'O', 'CC(=O)O', 'C1CC1', 'CCN', 'CS', 'c1ccccc1', 'c1ccncc1',
-            'C(F)C', 'CCl', 'C#C', 'C1=CC=CC=C1', '[NH3+]C', 'C[O-]', 'c1ccsc1', '[C;w=2.0]C', 'C[H]', 'OC(F)Cl', 'cc']
+            'C(F)C', 'CCl', 'C#C', 'C1=CC=CC=C1', '[NH3+]C', 'C[O-]', 'c1ccsc1', '[C;w=2.0]C', 'C[H]', 'OC(F)Cl', 'cc',
+            # explicit hydrogens with a weight of their own that reads as "false" (0, 0.0) on parents of non-zero weight
+            'C[H;w=0]', '[C;w=2.0][H;w=0]', 'C[H;0]', '[C;2.5]([H;w=0.0])C', 'N([H;w=0])[H;w=0.5]']
 
 
 CG_FRAGS_SQ = ['[!][#X][#Y][!]', '[!][#Y][#X][!]', '[#X][#Y][!]', '[!][#Y][#Z]', '[!][#X][!]', '[!][#X][#Y][#Z][!]', '[$][#X][#Y][!]']
